@@ -5,7 +5,10 @@ write_double_quoted / json.dumps with the Coq model and of the Coq YAML decoders
 vcr_writer / har_writer on stub recorders over nasty traffic (model predicts which scalar sites survive; the
 oracle re-parses the whole file and compares every field) -> Statistic + JunitXMLHandler on generated event
 histories built from real ScenarioRecorders vs the Coq state machine -> CassetteWriter thread on generated
-histories vs the Coq queue machine -> real `st run --report vcr,har,junit` against the loopback server.
+histories vs the Coq queue machine -> the lifecycle of the writer thread (queue, join with a timeout, sys.exit) under
+generated schedules vs the Coq transition system `lrun` (parameters read from the real CassetteWriter) -> real
+`st run --report vcr,har,junit` against the loopback server -> the real CLI in a process of its own (c16_child.py) with
+the report files on a slow device, re-parsed after the process has exited.
 """
 from __future__ import annotations
 
@@ -20,6 +23,7 @@ import shutil
 import sys
 import tempfile
 import threading
+import time
 import uuid
 import xml.etree.ElementTree as ET
 from types import SimpleNamespace
@@ -1219,6 +1223,356 @@ def stage_cassette_thread(chk, n):
 
 
 # ----------------------------------------------------------------------------------------
+# stage: lifecycle of the writer thread up to process exit (Model_C16 Part 5: lrun)
+# ----------------------------------------------------------------------------------------
+class GatedQueue(queue_mod.Queue):
+    """queue.Queue whose get() hands out one item per permit: the harness is the scheduler of the writer thread."""
+
+    def __init__(self):
+        super().__init__()
+        self.permits = threading.Semaphore(0)
+        self.arrived = threading.Semaphore(0)
+
+    def get(self, block=True, timeout=None):
+        self.arrived.release()  # the previous item is done, the writer is back at queue.get()
+        self.permits.acquire()
+        return super().get(block, timeout)
+
+
+class ClickSink(Sink):
+    """A report file whose handle Click may close (every later write raises, like a closed text file)."""
+
+    def __init__(self):
+        super().__init__()
+        self.closed_by_click = False
+
+    def open(self):
+        return self
+
+    def close(self):
+        # the VCR writer closes its file itself after Finalize; a close by anybody else shuts the handle under the writer
+        if threading.current_thread() is threading.main_thread():
+            self.closed_by_click = True
+
+    def write(self, s):
+        if self.closed_by_click:
+            raise ValueError("I/O operation on closed file.")
+        return self.buf.write(s)
+
+
+class JoinProxy:
+    """Stands in for CassetteWriter.worker: notes how the handler joins it and returns at once (whether a join
+    returns because the thread has ended or because the timeout expired is the schedule's decision)."""
+
+    def __init__(self, thread):
+        self.thread = thread
+        self.joins = []
+
+    def join(self, timeout=None):
+        self.joins.append(timeout)
+
+    def is_alive(self):
+        return self.thread.is_alive()
+
+    def __getattr__(self, name):
+        return getattr(self.thread, name)
+
+
+def _wait_arrival(q, t, limit=10.0):
+    end = time.monotonic() + limit
+    while time.monotonic() < end:
+        if q.arrived.acquire(timeout=0.002):
+            return True
+        if not t.is_alive():
+            return True
+    return False
+
+
+def _scenario_event(ints):
+    from schemathesis.engine import Status, events
+    from schemathesis.engine.phases import PhaseName
+
+    inters = []
+    for i in ints:
+        inters.append({"id": f"i{i['id']}", "uri": f"http://{'u:p@' if i['userinfo'] else ''}127.0.0.1/x?i=i{i['id']}", "method": "GET", "req_headers": {"A": ["b"], **({"Cookie": list(i["cookies"])} if i.get("cookies") else {})}, "req_body": None, "meta": "fuzzing", "checks": [],
+                       "response": None if not i["response"] else {"status": 200, "message": "OK", "headers": {"content-type": ["text/plain"]}, "content": b"x", "encoding": {"ok": "utf-8", "unknown": "bogus", "raises": "undefined"}[i["codec"]], "http_version": "1.1"}})
+    rec, _ = make_recorder(inters)
+    return events.ScenarioFinished(id=uuid.uuid4(), phase=PhaseName.FUZZING, suite_id=uuid.uuid4(), label="GET /x", status=Status.SUCCESS, recorder=rec, elapsed_time=0.1, skip_reason=None, is_final=False)
+
+
+def _other_event():
+    from schemathesis.engine import events
+    from schemathesis.engine.phases import PhaseName
+
+    return events.NonFatalError(error=ValueError("x"), phase=PhaseName.FUZZING, label="l", related_to_operation=False)
+
+
+def parse_partial_report(fmt, text):
+    """(entries [(id, complete)] | 'unparseable', the file is well-formed as it stands)."""
+    if fmt == "HAR":
+        wellformed = True
+        try:
+            doc = json.loads(text)
+        except ValueError:
+            wellformed = False
+            if not text:
+                return [], False
+            try:
+                doc = json.loads(text + "]}}")  # what is missing when harfile has not closed the file
+            except ValueError:
+                return "unparseable", False
+        try:
+            return [(e["request"]["url"].rpartition("?i=")[2], True) for e in doc["log"]["entries"]], wellformed
+        except (KeyError, IndexError, TypeError):
+            return "unparseable", False
+    y = yaml_load(text)
+    if y[0] != "ok":
+        return "unparseable", False
+    doc = y[1] or {}
+    if not isinstance(doc, dict):
+        return "unparseable", False
+    return [(e["id"], e["response"] is None or "http_version" in e["response"]) for e in (doc.get("http_interactions") or [])], True
+
+
+def run_lifecycle(fmt, sanitize, preserve, h, owned, sched):
+    """The real CassetteWriter and its thread under a schedule.  M = the main thread does its next action (start,
+    handle_event up to the next ScenarioFinished, shutdown, then: the join returns because the thread has ended, then
+    sys.exit), W = the writer takes one queue item, T = the join returns because its timeout expired.  sys.exit is
+    emulated after Python's rules: handles owned by Click are closed, a non-daemon thread is waited for, a daemon
+    thread is never scheduled again.  Returns (entries, writer state, exited, notes)."""
+    from schemathesis.cli.commands.run.context import ExecutionContext
+    from schemathesis.cli.commands.run.handlers.cassettes import CassetteWriter, Finalize
+    from schemathesis.cli.commands.run.reports import ReportFormat
+
+    died = []
+    saved_hook = threading.excepthook
+    threading.excepthook = lambda args: died.append((args.thread, args.exc_type.__name__))
+    sink, q = ClickSink(), GatedQueue()
+    notes = {}
+    try:
+        w = CassetteWriter(format=ReportFormat.HAR if fmt == "HAR" else ReportFormat.VCR, path=sink, sanitize_output=sanitize, preserve_bytes=preserve, queue=q)  # type: ignore[arg-type]
+        t = w.worker
+        proxy = JoinProxy(t)
+        w.worker = proxy  # type: ignore[assignment]
+        _wait_arrival(q, t)
+        ctx = ExecutionContext(seed=1)
+        actions, pending = [("start", [])], []
+        for e in h:
+            if e is None:
+                pending.append(_other_event())
+            else:
+                actions.append(("events", pending + [_scenario_event(e)]))
+                pending = []
+        actions.append(("shutdown", pending))
+        phase, pos, killed = "run", 0, False
+        for s in sched:
+            if s == "W":
+                if t.is_alive() and not killed and q.qsize() > 0:
+                    q.permits.release()
+                    if not _wait_arrival(q, t):
+                        notes["stuck"] = True
+            elif s == "M":
+                if phase == "run" and pos < len(actions):
+                    kind, evs = actions[pos]
+                    pos += 1
+                    if kind == "start":
+                        w.start(ctx)
+                    for ev in evs:
+                        w.handle_event(ctx, ev)
+                    if kind == "shutdown":
+                        w.shutdown(ctx)
+                elif phase == "run":
+                    if not t.is_alive():
+                        phase = "teardown"
+                elif phase == "teardown":
+                    if owned:
+                        sink.closed_by_click = True
+                    if t.is_alive():
+                        if t.daemon:
+                            killed, phase = True, "exited"
+                        else:
+                            q.permits.release(1_000_000)
+                            t.join(10)
+                            if t.is_alive():
+                                notes["hang"] = True  # threading._shutdown would wait for ever
+                            else:
+                                phase = "exited"
+                    else:
+                        phase = "exited"
+            elif s == "T":
+                if phase == "run" and pos == len(actions) and proxy.joins and proxy.joins[-1] is not None:
+                    phase = "teardown"
+        text = sink.buf.getvalue()
+        state = "LKilled" if killed else "LRunning" if t.is_alive() else ("LEnded", "Died") if any(th is t for th, _ in died) else ("LEnded", "Closed")
+        notes["joins"] = list(proxy.joins)
+        notes["daemon"] = t.daemon
+        notes["died"] = [n for th, n in died if th is t]
+        # let the thread go
+        if t.is_alive():
+            q.put(Finalize())
+            q.permits.release(1_000_000)
+            t.join(10)
+    finally:
+        threading.excepthook = saved_hook
+    entries, wellformed = parse_partial_report(fmt, text)
+    notes["wellformed"] = wellformed
+    return entries, state, phase == "exited", notes
+
+
+def rand_schedule(rng, n_items):
+    """Interleavings of the n_items puts of the main thread with writer steps, the join (returning or timing out at
+    any point of the backlog) and the exit."""
+    speed = rng.choice([0.0, 0.0, 0.3, 0.6, 1.0, 2.0])
+    out = []
+
+    def writer_steps(mean):
+        k = 0
+        while mean > 0 and rng.random() < mean / (1.0 + mean):
+            k += 1
+        return ["W"] * k
+
+    for _ in range(n_items):
+        out += writer_steps(speed)
+        out.append("M")
+    shape = rng.choice(["timeout-now", "timeout-now", "timeout-later", "timeout-later", "join-returns", "join-blocked-then-timeout", "no-exit"])
+    if shape == "timeout-now":
+        out += ["T"]
+    elif shape == "timeout-later":
+        out += ["W"] * rng.randrange(1, n_items + 1) + ["T"]
+    elif shape == "join-returns":
+        out += ["W"] * (n_items + 1) + ["M"]
+    elif shape == "join-blocked-then-timeout":
+        out += ["M"] + ["W"] * rng.randrange(0, 3) + ["M", "T"]
+    else:
+        out += ["W"] * rng.randrange(0, 3) + rng.choice([[], ["T"], ["M"]])
+        return out
+    out += ["W"] * rng.choice([0, 0, 1, 2]) + ["M"] + rng.choice([[], [], ["W", "M", "T"]])
+    return out
+
+
+STEP_NAMES = {"M": "SMain", "W": "SWriter", "T": "STimeout"}
+
+
+def lifecycle_parameters():
+    """What the model takes as parameters, read from the real objects: the daemon flag of the writer thread and the
+    timeout the handler joins it with (CassetteWriter built as initialize_handlers builds it), and whether Click
+    closes the file handle of each kind of report path when its context is torn down."""
+    import warnings
+
+    import click
+
+    from schemathesis.cli import schemathesis as st_group
+    from schemathesis.cli.commands.run.context import ExecutionContext
+    from schemathesis.cli.commands.run.handlers import cassettes
+    from schemathesis.cli.commands.run.reports import ReportConfig, ReportFormat
+    from schemathesis.cli.ext.fs import open_file
+
+    out = {"daemon": {}, "join": {}, "thread_ended": {}, "constant": cassettes.WRITER_WORKER_JOIN_TIMEOUT}
+    core.SCRATCH.mkdir(exist_ok=True)
+    td = tempfile.mkdtemp(dir=core.SCRATCH, prefix="c16_")
+    try:
+        with warnings.catch_warnings():
+            warnings.simplefilter("ignore")
+            for fmt in (ReportFormat.VCR, ReportFormat.HAR):
+                config = ReportConfig(formats=[fmt], directory=__import__("pathlib").Path(td))
+                path = config.get_path(fmt)
+                open_file(path)
+                w = cassettes.CassetteWriter(format=fmt, path=path, sanitize_output=config.sanitize_output, preserve_bytes=config.preserve_bytes)
+                t = w.worker
+                proxy = JoinProxy(t)
+                w.worker = proxy  # type: ignore[assignment]
+                ctx = ExecutionContext(seed=1)
+                w.start(ctx)
+                w.shutdown(ctx)
+                t.join(10)
+                out["daemon"][fmt.value] = t.daemon
+                out["join"][fmt.value] = list(proxy.joins)
+                out["thread_ended"][fmt.value] = not t.is_alive()
+                path.close()
+            # who closes the handle
+            cmd = st_group.commands["run"]
+            params = {p.name: p for p in cmd.params}
+            closed = {}
+            for name in ("report_vcr_path", "report_har_path"):
+                cctx = click.Context(cmd)
+                handle = params[name].type.convert(os.path.join(td, name + ".out"), params[name], cctx)
+                handle.open()
+                cctx.close()
+                closed[name] = bool(handle._f.closed) if hasattr(handle, "_f") else bool(handle.closed)
+            cctx = click.Context(cmd)
+            own = ReportConfig(formats=[ReportFormat.VCR], directory=__import__("pathlib").Path(td)).get_path(ReportFormat.VCR)
+            own.open()
+            cctx.close()
+            closed["report_dir"] = bool(own._f.closed)
+            own.close()
+            out["closed_by_click"] = closed
+    finally:
+        shutil.rmtree(td, ignore_errors=True)
+    return out
+
+
+def stage_lifecycle(chk, n):
+    rng = chk.rng
+    # 1. parameters of the model vs the real objects
+    (mp,) = core.coq_eval(IMPORTS, ["(writer_thread_daemon, join_timeout_ms, lc_click_owned lconf_report_path, lc_click_owned lconf_report_dir)"])
+    m_daemon, m_timeout_ms, m_owned_path, m_owned_dir = mp
+    real = lifecycle_parameters()
+    impl_params = {"daemon": real["daemon"], "join": real["join"], "closed_by_click": real["closed_by_click"]}
+    model_params = {"daemon": {"vcr": m_daemon, "har": m_daemon}, "join": {"vcr": [m_timeout_ms / 1000], "har": [m_timeout_ms / 1000]},
+                    "closed_by_click": {"report_vcr_path": m_owned_path, "report_har_path": m_owned_path, "report_dir": m_owned_dir}}
+    chk.seen({"lifecycle": "parameters"}, True)
+    if impl_params != model_params or not all(real["thread_ended"].values()):
+        chk.disagree("CassetteWriter as the CLI builds it (daemon flag of the writer thread, join timeout of shutdown, who closes the file handle) vs Model_C16 "
+                     "(writer_thread_daemon, join_timeout_ms, lc_click_owned)", {"lifecycle": "parameters"}, {**impl_params, "thread_ended": real["thread_ended"]}, model_params)
+    # 2. schedules
+    cases = [("VCR", True, False, [[{"id": 1, "userinfo": False, "response": True, "codec": "ok", "cookies": []}], [{"id": 2, "userinfo": False, "response": True, "codec": "ok", "cookies": []}],
+                                   [{"id": 3, "userinfo": False, "response": True, "codec": "ok", "cookies": []}]], owned, list("MMMMMWWTM")) for owned in (False, True)]
+    cases += [("HAR", True, False, cases[0][3], owned, list("MMMMMWWTM")) for owned in (False, True)]
+    cases += [("VCR", True, False, cases[0][3], False, list("MMMMMTM")), ("HAR", False, True, cases[0][3], False, list("MMMMMTM"))]
+    if chk.broken:
+        n *= 5
+    while len(cases) < n:
+        h = rand_chistory(rng)
+        n_items = 2 + sum(e is not None for e in h)
+        cases.append((rng.choice(["VCR", "HAR"]), rng.random() < 0.6, rng.random() < 0.4, h, rng.random() < 0.35, rand_schedule(rng, n_items)))
+    exprs = []
+    for fmt, san, pres, h, owned, sched in cases:
+        exprs.append(f"(let st := lrun {{| lc_daemon := writer_thread_daemon; lc_click_owned := {cbool(owned)} |}} {{| w_fmt := {fmt}; w_sanitize := {cbool(san)}; w_preserve := {cbool(pres)} |}} "
+                     f"{c_chistory(h)} {clist([STEP_NAMES[x] for x in sched], 'sstep')} in (lresult st, lexited st))")
+    model = core.coq_eval(IMPORTS, exprs)
+    stats = {"schedules": len(cases), "exited": 0, "exited_after_a_timeout_with_backlog": 0, "lost_inside_regions": {}, "parameters": impl_params}
+    for (fmt, san, pres, h, owned, sched), (m_out, m_state, m_exited) in zip(cases, model):
+        case = {"format": fmt, "sanitize": san, "preserve": pres, "history": h, "report_file_owned_by_click": owned, "schedule": "".join(sched),
+                "legend": "M main thread: next put / join returns / sys.exit; W writer takes one item; T the join times out"}
+        entries, state, exited, notes = run_lifecycle(fmt, san, pres, h, owned, sched)
+        chk.seen(case, True)
+        chk.count(f"lifecycle:{fmt}:{'owned' if owned else 'dir'}:{state if isinstance(state, str) else state[1]}:{'exited' if exited else 'running'}")
+        impl = (entries, state, exited)
+        mod = ([(f"i{k}", done) for k, done in m_out], m_state, m_exited)
+        if impl != mod:
+            chk.disagree("CassetteWriter under a schedule (entries in the file, state of the writer thread, process exited) vs Model_C16.lrun", case, [impl, notes], mod)
+        if not exited:
+            continue
+        stats["exited"] += 1
+        delivered = [f"i{i['id']}" for e in h if e is not None for i in e]
+        timed_out = "T" in sched
+        if timed_out and delivered:
+            stats["exited_after_a_timeout_with_backlog"] += 1
+        if entries != [(d, True) for d in delivered] or state != ("LEnded", "Closed") or (fmt == "HAR" and not notes["wellformed"]):
+            raising = fmt == "VCR" and not pres and any(i["response"] and i["codec"] == "raises" for e in h if e is not None for i in e)
+            region = "codec_decode_raises" if raising else "click_owned_report_file" if (owned and timed_out and not notes["daemon"]) else None
+            stats["lost_inside_regions"][str(region)] = stats["lost_inside_regions"].get(str(region), 0) + 1
+            why = "a daemon writer thread is killed in its backlog" if state == "LKilled" else f"the writer thread ended {state}"
+            if region is None:
+                stats["failing_schedules_outside_regions"] = stats.get("failing_schedules_outside_regions", 0) + 1
+                if stats["failing_schedules_outside_regions"] > 3:
+                    continue  # three concrete schedules are reported, the rest is counted
+            chk.fail(f"{fmt} report after process exit: delivered exchanges are missing or the file is not closed ({why})", case,
+                     {"in_the_file": entries, "delivered": delivered, "writer": state, "well_formed": notes["wellformed"], "thread_daemon": notes["daemon"], "join_calls": notes["joins"]}, region=region)
+    chk.stages["writer_lifecycle"] = stats
+
+
+# ----------------------------------------------------------------------------------------
 # stage: real `st run --report ...`
 # ----------------------------------------------------------------------------------------
 def cli_schema(paths):
@@ -1620,6 +1974,179 @@ def stage_cli(chk, quick):
 
 
 # ----------------------------------------------------------------------------------------
+# stage: the REAL CLI in a process of its own, report files on a slow device, re-parsed after the process has gone
+# ----------------------------------------------------------------------------------------
+_EXIT_OP = {"parameters": [{"name": "n", "in": "query", "schema": {"type": "integer"}}], "responses": {"200": {"description": "ok"}}}
+PATHS_EXIT = {"/a": {"get": _EXIT_OP}, "/b": {"get": _EXIT_OP}, "/c": {"get": _EXIT_OP}, "/d": {"get": _EXIT_OP}}
+EXIT_BODY = b'{"ok": true, "text": "caf\xc3\xa9 \\" \' \\\\ \x07"}'
+CHARS_PER_EXCHANGE = 1250   # one entry of either file for this API (measured; only sizes the slow device)
+_CHILD_RUNS: dict = {}
+
+
+def child_run(report, extra=(), join_timeout=1.0, slower=1.0):
+    """`st run` through harness/props/c16_child.py: a process of its own (same interpreter, same PYTHONPATH, i.e. the
+    source tree under check), 4 operations x 3 examples, report files on a slow device, real sys.exit.  report = 'dir'
+    (--report=vcr,har --report-dir) or 'path' (--report-vcr-path / --report-har-path).  Everything is read after the
+    child has gone."""
+    import subprocess
+
+    raw = cli_schema(PATHS_EXIT)
+
+    def respond(item):
+        if item["target"].startswith("/openapi.json"):
+            return 200, [("Content-Type", "application/json")], json.dumps(raw).encode()
+        return 200, [("Content-Type", "application/json")], EXIT_BODY
+
+    rec = Recorder(respond)
+    core.SCRATCH.mkdir(exist_ok=True)
+    td = tempfile.mkdtemp(dir=core.SCRATCH, prefix="c16_exit_")
+    out = {"report": report}
+    try:
+        if report == "dir":
+            rep = ["--report=vcr,har", f"--report-dir={td}/reports"]
+            files = {"vcr.yaml": f"{td}/reports/vcr.yaml", "har.json": f"{td}/reports/har.json"}
+        else:
+            rep = [f"--report-vcr-path={td}/cassette.yaml", f"--report-har-path={td}/archive.json"]
+            files = {"vcr.yaml": f"{td}/cassette.yaml", "har.json": f"{td}/archive.json"}
+        args = ["run", f"http://127.0.0.1:{rec.port}/openapi.json", *rep, "--generation-database=none", "--suppress-health-check=all", "--no-color",
+                "--max-examples", "3", "--phases", "fuzzing", "--checks", "not_a_server_error", "--seed", "1", "--output-sanitize", "false", *extra]
+        # two handlers are shut down one after the other, each joins for join_timeout: the backlog of each file has to last longer
+        free = 1500
+        backlog_chars = 12 * CHARS_PER_EXCHANGE - free
+        rate = backlog_chars / ((2 * min(join_timeout, 2.0) + 0.9) * slower)
+        spec = {"args": args, "side": f"{td}/side.jsonl", "free_chars": free, "rate": rate}
+        t0 = time.monotonic()
+        try:
+            p = subprocess.run([sys.executable, "-m", "harness.props.c16_child"], input=json.dumps(spec), capture_output=True, text=True, timeout=120,
+                               cwd=str(core.VERIF), env=os.environ.copy())
+            out["exit"], out["console"], out["stderr"] = p.returncode, p.stdout[-1500:], p.stderr[-1500:]
+        except subprocess.TimeoutExpired:
+            out["exit"], out["console"], out["stderr"] = "timeout", "", ""
+        out["wall"] = round(time.monotonic() - t0, 1)
+        notes = []
+        if os.path.exists(spec["side"]):
+            notes = [json.loads(line) for line in open(spec["side"], encoding="utf8") if line.strip()]
+        out["source"] = next((n["source"] for n in notes if "source" in n), None)
+        out["delivered"] = [(n["delivered"], n["uri"]) for n in notes if "delivered" in n]
+        out["shutdown"] = {n["shutdown"]: n for n in notes if "shutdown" in n}
+        out["thread_died"] = [n["error"] for n in notes if "thread_died" in n]
+        out["server_ids"] = [dict((k.lower(), v) for k, v in r["headers"]).get("x-schemathesis-testcaseid") for r in rec.take()]
+        out["server_ids"] = [i for i in out["server_ids"] if i]
+        for name, path in files.items():
+            out[name] = open(path, encoding="utf8", newline="").read() if os.path.exists(path) else None
+        out["argv"] = [a.replace(td, "<dir>").replace(str(rec.port), "<port>") for a in args]
+        out["device"] = {"free_chars": free, "chars_per_second_after_shutdown_began": round(rate)}
+    finally:
+        rec.close()
+        shutil.rmtree(td, ignore_errors=True)
+    return out
+
+
+def child_problems(out):
+    """Oracle over what is on disk after the process has exited: both files parse and hold every exchange exactly once."""
+    problems = []
+    ids = [cid for cid, _ in out["delivered"]]
+    uris = dict(out["delivered"])
+    if out["exit"] != 0:
+        problems.append(f"the run ended with exit code {out['exit']}: {out['stderr'][-300:]}")
+    body_text = EXIT_BODY.decode("utf8")
+    y = yaml_load(out["vcr.yaml"] or "")
+    if out["vcr.yaml"] is None:
+        problems.append("vcr.yaml was not written")
+    elif y[0] != "ok" or not isinstance(y[1], dict):
+        problems.append(f"VCR cassette is not YAML ({str(y[1])[:160]}); the file ends with {out['vcr.yaml'][-60:]!r}")
+    elif yaml_load(out["vcr.yaml"], c_loader=True) != y:
+        problems.append("VCR cassette: the libyaml loader does not read what the Python loader reads")
+    else:
+        entries = y[1].get("http_interactions") or []
+        got = [e.get("id") for e in entries]
+        if got != ids:
+            problems.append(f"VCR cassette holds {len(got)} of the {len(ids)} exchanges that were delivered (missing: {[i for i in ids if i not in got][:12]}, extra: {[i for i in got if i not in ids][:3]})")
+        for e in entries:
+            resp = e.get("response")
+            body = resp.get("body") if isinstance(resp, dict) else None
+            body_ok = isinstance(body, dict) and (b64(body["base64_string"]) == EXIT_BODY if "base64_string" in body else body.get("string") == body_text)
+            if not isinstance(resp, dict) or "http_version" not in resp or not body_ok:
+                problems.append(f"VCR entry {e.get('id')} is cut off or its body differs from what the server sent: {str(resp)[-120:]}")
+                break
+            if e["request"]["uri"] != uris.get(e.get("id")):
+                problems.append(f"VCR entry {e.get('id')}: uri {e['request']['uri']!r} is not the one that was sent")
+                break
+    if out["har.json"] is None:
+        problems.append("har.json was not written")
+    else:
+        try:
+            entries = json.loads(out["har.json"])["log"]["entries"]
+            got = [e["request"]["url"] for e in entries]
+            if got != [u for _, u in out["delivered"]]:
+                problems.append(f"HAR file holds {len(got)} of the {len(ids)} exchanges that were delivered")
+            elif any((b64(e["response"]["content"].get("text") or "") != EXIT_BODY) if e["response"]["content"].get("encoding") == "base64" else (e["response"]["content"].get("text") != body_text) for e in entries):
+                problems.append("HAR entry: response text differs from what the server sent")
+        except (ValueError, KeyError, TypeError) as exc:
+            problems.append(f"HAR file is not valid JSON/HAR ({type(exc).__name__}: {str(exc)[:100]}); the file ends with {out['har.json'][-40:]!r}")
+    if out["thread_died"]:
+        problems.append(f"a cassette writer thread died: {out['thread_died']}")
+    return problems
+
+
+def child_conclusive(out):
+    """The run is a witness of the lifecycle only if both joins returned while the writer still had a backlog."""
+    sd = out["shutdown"]
+    return bool(out["delivered"]) and set(sd) == {"vcr", "har"} and all(n["alive_after_join"] for n in sd.values())
+
+
+def get_child_run(report, extra=(), join_timeout=1.0):
+    key = (report, tuple(extra))
+    if key not in _CHILD_RUNS:
+        out = child_run(report, extra, join_timeout)
+        if out["exit"] == 0 and not child_conclusive(out):
+            out = child_run(report, extra, join_timeout, slower=2.0)  # a loaded machine: the engine was slower than the device
+        _CHILD_RUNS[key] = out
+    return _CHILD_RUNS[key]
+
+
+def stage_process_exit(chk, quick):
+    from concurrent.futures import ThreadPoolExecutor
+
+    params = chk.stages.get("writer_lifecycle", {}).get("parameters", {})
+    joins = [t for ts in params.get("join", {}).values() for t in ts if isinstance(t, (int, float))]
+    join_timeout = float(max(joins)) if joins else 1.0
+    plan = [("dir", ()), ("path", ())]
+    if not quick or chk.broken:
+        plan += [("dir", ("--report-preserve-bytes",)), ("dir", ("--workers", "2"))]
+    with ThreadPoolExecutor(max_workers=2) as pool:
+        outs = list(pool.map(lambda rx: get_child_run(rx[0], rx[1], join_timeout), plan))
+    stats = {"runs": len(plan), "conclusive": 0, "clean": 0, "join_timeout_read": join_timeout, "wall": [o["wall"] for o in outs]}
+    src = os.path.realpath(os.path.dirname(__import__("schemathesis").__file__))
+    for (report, extra), out in zip(plan, outs):
+        case = {"child_process": "st " + " ".join(out.get("argv", [])), "report_paths": report, "slow_device": out.get("device")}
+        chk.seen(case, True)
+        chk.count(f"process_exit:{report}")
+        if out.get("source") is None or os.path.realpath(os.path.dirname(out["source"])) != src:
+            chk.disagree("the child process did not import schemathesis from the tree under check", case, [out.get("source"), out.get("stderr", "")[-400:]], src)
+            continue
+        if not out["delivered"] or sorted(out["server_ids"]) != sorted(cid for cid, _ in out["delivered"]):
+            chk.disagree("child run: the exchanges delivered to the reporters are not the requests the loopback server saw (nothing to compare with)", case,
+                         [len(out["delivered"]), out["console"][-300:], out["stderr"][-300:]], len(out["server_ids"]))
+            continue
+        if not child_conclusive(out):
+            chk.count("process_exit:join-did-not-time-out")
+            chk.notes.append(f"process_exit [{report}]: the join did not time out inside the backlog ({out['shutdown']}): the run is no witness of the lifecycle")
+        else:
+            stats["conclusive"] += 1
+        problems = child_problems(out)
+        if not problems:
+            stats["clean"] += 1
+            continue
+        sd = out["shutdown"]
+        daemon = any(n.get("daemon") for n in sd.values())
+        region = "click_owned_report_file" if report == "path" and not daemon and child_conclusive(out) else None
+        chk.fail(f"real st run in a process of its own, reports re-read after exit [{report}{' ' + ' '.join(extra) if extra else ''}]: {problems[0]}", case,
+                 {"problems": problems, "exit_code": out["exit"], "delivered": len(out["delivered"]), "shutdown": sd, "console_tail": out["console"][-200:]}, region=region)
+    chk.stages["process_exit"] = stats
+
+
+# ----------------------------------------------------------------------------------------
 # listed findings: canonical witnesses replayed on the implementation
 # ----------------------------------------------------------------------------------------
 def witness_fails(w) -> bool:
@@ -1637,6 +2164,9 @@ def witness_fails(w) -> bool:
             return True
         entries = y[1].get("http_interactions") or []
         return [e.get("id") for e in entries] != ids or bool(compare_vcr_entry(entries[0], it, w.get("preserve", False)))
+    if kind == "cli_child":
+        out = get_child_run(w["report"])
+        return child_conclusive(out) and bool(child_problems(out))
     if kind == "libyaml_text":
         s = "".join(chr(c) for c in w["text"])
         return yaml_load(impl_wdq(s), c_loader=True) != ("ok", s)
@@ -1661,13 +2191,18 @@ def run(chk: core.Check):
         "(validated per run against PyYAML and libyaml on generated scalar texts)",
         "failure identity is (class, operation, _unique_key) as Failure.__eq__ defines it; case ids are unique within a run",
         "engine-emitted histories: any sequence of ScenarioFinished (any status, any recorder), NonFatalError and EngineFinished events",
+        "process exit (Model_C16 Part 5, exit_step): sys.exit unwinds the Click context, which closes the click.File handles it created (measured per run "
+        "on click.Context.close), then threading._shutdown joins every non-daemon thread without a timeout and daemon threads never run again; the writer "
+        "takes one queue item at a time and may be arbitrarily slow (validated by real child-process runs whose report files are re-read after the exit)",
     ]
     chk.rule = (
         "one PRNG (VERIF_SEED): strings over 59 boundary code points of every escaper class (controls, DEL, C1, NEL, NBSP, LS/PS, BOM, surrogates, "
         "FFFE/FFFF, astral) mixed with uniform code points; scalar texts over an alphabet of quotes, escapes and indicators for the decoders; exchanges "
         "with URL quotes/reserved characters/userinfo, latin-1 header values incl. controls, 16 payloads (empty, invalid UTF-8, NUL, line breaks, all 256 bytes), "
         "network errors without response, 7+4 encodings, meta none/fuzzing/coverage/stateful, check lists; event histories over 1-5 labels x 1-6 failure "
-        "identities x 7 statuses (rediscovery under another label is frequent); cassette histories with raising entries; real st run invocations against "
+        "identities x 7 statuses (rediscovery under another label is frequent); cassette histories with raising entries; schedules of main-thread / writer / join-timeout steps (writer speeds 0 to 2 items per put, "
+        "the join returning, timing out at once or anywhere in the backlog, blocked then timing out, no exit) x report file owned by Click or not; real child "
+        "processes running st run with 12 exchanges and report files on a slow device (--report-dir and --report-*-path); real st run invocations against "
         "a loopback API answering with nasty payloads. non-trivial = needs escaping / has a payload or a fault / has a FAILURE event; distinct by canonical JSON"
     )
     chk.proofs(["Common", "C16"])
@@ -1679,7 +2214,9 @@ def run(chk: core.Check):
     stage_sequences(chk, (150 if quick else 1500) * (5 if chk.broken else 1))
     stage_junit(chk, 300 if quick else 4000)
     stage_cassette_thread(chk, 40 if quick else 400)
+    stage_lifecycle(chk, 60 if quick else 600)
     stage_cli(chk, quick)
+    stage_process_exit(chk, quick)
 
     for f in chk.findings:
         chk.known(f, witness_fails(f["witness"]))
@@ -1691,6 +2228,14 @@ def replay(payload) -> int:
         print("  input :", json.dumps(f.get("input"), default=str)[:800])
         print("  detail:", str(f.get("detail"))[:800])
         inp = f.get("input") or {}
+        if isinstance(inp, dict) and "schedule" in inp:
+            entries, state, exited, notes = run_lifecycle(inp["format"], inp["sanitize"], inp["preserve"], inp["history"], inp["report_file_owned_by_click"], list(inp["schedule"]))
+            print("  replayed: in the file", entries, "| writer", state, "| exited", exited, "|", notes)
+        if isinstance(inp, dict) and "child_process" in inp:
+            out = child_run(inp["report_paths"])
+            print("  replayed: exit code", out["exit"], "| delivered", len(out["delivered"]), "| shutdown", out["shutdown"])
+            for problem in child_problems(out):
+                print("    -", problem[:300])
         if isinstance(inp, dict) and "exchange" in inp:
             it = unjsonable(inp["exchange"])
             rec, _ = make_recorder([it])
